@@ -45,6 +45,12 @@ def drive : List String → String
     match dec p, dec c, decList a, decTags t with
     | some p, some c, some a, some t => enc (format ⟨p, c, a, t⟩)
     | _, _, _, _ => "bad-op"
+  | ["copy", p, c, a, t, p2, c2, a2] =>
+    match dec p, dec c, decList a, decTags t, dec p2, dec c2, decList a2 with
+    | some p, some c, some a, some t, some p2, some c2, some a2 =>
+      let m := copyCtor ⟨p, c, a, t⟩ p2 c2 a2
+      enc m.pfx ++ "\t" ++ enc m.command ++ "\t" ++ encList m.args ++ "\t" ++ encTags m.tags ++ "\t" ++ enc (format m)
+    | _, _, _, _, _, _, _ => "bad-op"
   | ["wf", p, c, a, t] =>
     match dec p, dec c, decList a, decTags t with
     | some p, some c, some a, some t =>
